@@ -196,6 +196,8 @@ func init() {
 			c.ruleVerifiedCommit()
 			c.min("R-VERIFIED", 5)
 			c.ruleDistinctVotes()
+			c.ruleFreshKeySet()
+			c.min("R-FRESHKEYSET", 1)
 			c.ruleAncestryGrandpaCommit()
 			c.min("R-ANCESTRYARGS", 2)
 		})
@@ -225,6 +227,8 @@ func init() {
 			c.min("R-THRESHCONV/B", 9)
 			c.ruleJustificationSigs()
 			c.ruleBranchAccum()
+			c.ruleSortedSearch("R-SORTEDSEARCH", fgDir)
+			c.min("R-SORTEDSEARCH", 1)
 			c.doc("R-FULLSCAN", "every induction-variable loop over the precommit list in the justification verifier / ValidateCommit visits every element (affine index reasoning in the coordinates of the underlying list): the lowest precommit (ancestry base), the signature checks and the weight tally must not skip an entry depending on its position")
 			if sp := c.ssaPkg("internal/client/consensus/grandpa"); sp != nil {
 				for _, f := range allFuncs(c, sp) {
